@@ -211,7 +211,13 @@ func (c *Cache[K, V]) List() map[K]*Item[V] {
 	c.mu.RLock()
 	defer c.mu.RUnlock()
 
-	return c.items
+	// Return a copy: the caller iterates over the map without holding the lock.
+	items := make(map[K]*Item[V], len(c.items))
+	for k, item := range c.items {
+		items[k] = item
+	}
+
+	return items
 }
 
 // Count returns the number of existing items in the cache.
